@@ -88,6 +88,15 @@ func (n *Node) Call(req interface{}, resp interface{}) {
 // CallT is Call with a watchdog: if the worker does not answer in time it is killed and
 // restarted and false is returned (the caller decides what a hang means).
 func (n *Node) CallT(req interface{}, resp interface{}, limit time.Duration) bool {
+	answered, crashed := n.CallC(req, resp, limit, false)
+	_ = crashed
+	return answered
+}
+
+// CallC is CallT that can survive a worker crash (the engine aborting on an input, e.g. a failed assertion inside
+// Node while it formats a SyntaxError): with crashOK the worker is restarted and crashed=true is returned instead
+// of an infrastructure error, so that the caller can isolate the offending case.
+func (n *Node) CallC(req interface{}, resp interface{}, limit time.Duration, crashOK bool) (answered bool, crashed bool) {
 	n.mu.Lock()
 	defer n.mu.Unlock()
 	if n.calls > 4000 {
@@ -116,18 +125,25 @@ func (n *Node) CallT(req interface{}, resp interface{}, limit time.Duration) boo
 	select {
 	case r := <-ch:
 		if r.err != nil {
+			if crashOK {
+				n.cmd.Process.Kill()
+				n.cmd.Wait()
+				n.cmd = nil
+				n.start()
+				return false, true
+			}
 			fatalf("node read: %v (request %s)", r.err, trunc(string(data), 2000))
 		}
 		if err := json.Unmarshal(r.line, resp); err != nil {
 			fatalf("node response: %v: %s", err, trunc(string(r.line), 500))
 		}
-		return true
+		return true, false
 	case <-time.After(limit):
 		n.cmd.Process.Kill()
 		n.cmd.Wait()
 		n.cmd = nil
 		n.start()
-		return false
+		return false, false
 	}
 }
 
